@@ -45,7 +45,7 @@ RULE = ("large universes: 5 (quick) / 29 (thorough) datasets of 4 permutations o
         % len(SCHEMES))
 SCOPE = {"quick": "701 exhaustive datasets (n<=3, m<=2) x 2 schemes x 1.5 namings + 600 sampled (n<=6, m<=5) x 4 "
                   "schemes; 7 configurations x 2 flag values",
-         "thorough": "all datasets n<=3 m<=3 (18.3k) and n=4 m<=2 (22.6k) x 1 scheme, quick's sweep, 5000 sampled "
+         "thorough": "all datasets n<=3 m<=3 (18.3k) and n=4 m<=2 (22.6k) x 1 scheme, quick's sweep, 10000 sampled "
                      "(n<=7, m<=5) x 4 schemes; 7 configurations x 2 flag values"}
 EXHAUSTIVE = {"quick": False, "thorough": False}
 CHUNK = 4
@@ -159,7 +159,7 @@ def gen_cases(tier, seed):
                 idx += 1
     rng = random.Random(seed * 611953 + 9)
     seen = set()
-    for i in range(600 if quick else 5000):
+    for i in range(600 if quick else 10000):
         d = D.random_dataset(rng, 6 if quick else 7, 5, complete=(i % 5 == 0), n_min=2)
         kind = KINDS_WEIGHTED[i % 8]
         sch = [SCHEMES[(3 * i + j) % ns] for j in range(3)] + D.grid_schemes(rng, 1)
